@@ -1031,10 +1031,12 @@ impl PhysicalOperator for HashJoinExec {
                             const BITMAP_MAX_BITS: i64 = 2_147_483_648;
                             // Too wide for a bitmap and too many keys for a
                             // cheap set: publish nothing.
-                            let skip = (max - min) >= BITMAP_MAX_BITS && keys.len() > 4_000_000;
+                            // saturating: keys spanning most of i64 overflow `max - min`
+                            let span = max.saturating_sub(min);
+                            let skip = span >= BITMAP_MAX_BITS && keys.len() > 4_000_000;
                             let payload = if skip {
                                 None
-                            } else if (max - min) < BITMAP_MAX_BITS {
+                            } else if span < BITMAP_MAX_BITS {
                                 let width = (max - min) as usize + 1;
                                 let mut bits = vec![0u64; width.div_ceil(64)];
                                 for k in &keys {
